@@ -49,6 +49,17 @@ int parse_options(reproc_options *options, const char *const *argv)
 #undef O0
 
 
+/* ------------------------------- clock.posix.c ---------------------------- */
+
+/* the library's clock is the OS clock in milliseconds; reading it lets virtual
+   time pass (non-decreasing) and has no other effect */
+CONTRACT(now)
+int64_t now(void)
+  ASSIGNS(g.now, g.os_calls)
+  ENS("C08/now.is_os_clock_in_ms", RV == g.now)
+  ENS("C08/now.monotone", g.now >= OLD(g.now) && g.now - OLD(g.now) <= 0x7fffffffLL)
+  ;
+
 /* ------------------------------ handle.posix.c ---------------------------- */
 
 #define FD_FRAME_EXCEPT(m)                                                     \
